@@ -276,3 +276,8 @@ impl<'a> Message<'a> {
         })
     }
 }
+
+// verification hook (guard: cfg(kani)); contract harnesses live outside the repository
+#[cfg(kani)]
+#[path = "/verif/kani/statime_wire/messages/mod.rs"]
+mod verif;
